@@ -108,6 +108,14 @@ type Rule struct {
 	// event (e.g. a comparison of two interesting values). It is called for the
 	// condition of an If when taking the edge with the given truth value.
 	OnBranch func(x *Ctx, s State, cond ssa.Value, taken bool) (State, string)
+	// FieldFlag makes a struct field a tracked cell of the path state (a flag, as for Flag): loads of the field are
+	// evaluated from the flag (let Flag recognise them), a store to the field sets the flag to the zero-ness of the
+	// stored value, and allocating a struct that has the field sets it to zero. It is field-based — one cell for all
+	// objects of the type — which is exact when a path holds one such object at a time (an attempt record, a
+	// walker): the rule that opts in states that assumption.
+	FieldFlag func(fa *ssa.FieldAddr) (int, bool)
+	// AllocFlags lists the flags to reset to zero when a value of this (struct) type is allocated.
+	AllocFlags func(t types.Type) []int
 	// GoAsCall: a go statement whose callee reaches tracked events is explored as a call made at the spawn point
 	// (instead of making the run undecided). For rules whose verdicts depend on facts that do not change after the
 	// spawn (immutable flags).
@@ -998,6 +1006,20 @@ func (e *Engine) stepBlock(c0 *config, sum *summary, isRoot bool) []*config {
 				next = append(next, e.doCall(c, instr)...)
 			default:
 				// other instructions: events on non-call instructions
+				if al, ok := instr.(*ssa.Alloc); ok && e.R.AllocFlags != nil {
+					if pt, ok := al.Type().Underlying().(*types.Pointer); ok {
+						for _, i := range e.R.AllocFlags(pt.Elem()) {
+							c.s = c.s.WithFlag(i, Zero)
+						}
+					}
+				}
+				if st, ok := instr.(*ssa.Store); ok && e.R.FieldFlag != nil {
+					if fa, ok := st.Addr.(*ssa.FieldAddr); ok {
+						if i, ok := e.R.FieldFlag(fa); ok {
+							c.s = c.s.WithFlag(i, e.eval(c, st.Val))
+						}
+					}
+				}
 				if st, ok := instr.(*ssa.Store); ok {
 					if fv, ok := st.Addr.(*ssa.FreeVar); ok {
 						e.id(fv)
